@@ -89,10 +89,14 @@ Fixpoint real_comps (cs : list comp) : list (form * partial_t) :=
   | Comp f p :: r => (f, p) :: real_comps r
   | Garbage :: r => real_comps r
   end.
-(** unparseable tokens are dropped; an alternative whose tokens are all dropped is dropped *)
+(** the partial version [*] *)
+Definition star_partial : partial_t := mkP None None None [] [].
+(** unparseable tokens are dropped; an alternative whose tokens are all dropped is dropped;
+    an alternative in which nothing at all is written is [*] (README: [""] := [*] := [>=0.0.0]) *)
 Definition npm_alt (a : alt) (v : version) : bool :=
   match a with
   | AHyphen lo hi => npm_set (desugar_hyphen lo hi) v
+  | ASet [] => npm_set (desugar FBare star_partial) v
   | ASet cs =>
     match real_comps cs with
     | [] => false
@@ -114,6 +118,7 @@ Definition comp_tbl (c : comp) : option boundset := match c with Comp f p => tbl
 Definition compile_alt (a : alt) : list boundset :=
   match a with
   | AHyphen lo hi => opt_to_list (hyphen_tbl lo hi)
+  | ASet [] => opt_to_list (partial_tbl star_partial)
   | ASet cs => and_fold (flatten_opts (map comp_tbl cs))
   end.
 Definition compile (r : ast) : list boundset := flat_map compile_alt r.
